@@ -38,6 +38,11 @@ def instances(tier):
         out.append(dict(id="%s-after-events-euler-N2" % ("time-lookup" if mode == "time" else mode), family="euler", N=2, mode=mode, dense=False, events=True, budget=b))
     out.append(dict(id="time-lookup-dense-continued-tol-change-euler-N2", family="euler", N=2, mode="time", dense=True, cont=True, tol_change=True, budget=b))
     out.append(dict(id="time-lookup-continued-euler-N2", family="euler", N=2, mode="time", dense=False, cont=True, budget=b))
+    # a step callback looks the trajectory up by time / slices it WHILE the run is in progress (monitoring code): what it sees is the part
+    # recorded so far, and the lookups made after the run answer from the complete trajectory
+    for mode in ("time", "slice"):
+        out.append(dict(id="%s-after-lookups-in-callback-euler-N3" % ("time-lookup" if mode == "time" else mode), family="euler", N=3, mode=mode, dense=False,
+                        cb_lookups=True, budget=b))
     # the run goes AGAINST the direction of the constructor's (t0, tf) span: integrate(T) with T on the other side of t0
     for mode in ("time", "slice", "index"):
         out.append(dict(id="%s-against-span-euler-N2" % mode, family="euler", N=2, mode=mode, dense=False, against=True, budget=b))
@@ -93,6 +98,22 @@ def scenario(c, inst):
                 return np.array([], dtype=np.int64), c.array([]), False, []
             with patched(ds, "handle_events", no_events):
                 st, r = run(a.integrate, events=[Ev("e0")], callback=spans.cap_callback(c, cap + 2, kind))
+        elif inst.get("cb_lookups"):
+            qcb = c.real("q_cb")
+            c.assume(qcb <= 128)
+            c.assume(qcb >= -128)
+            seen = []
+
+            def lookups(system):
+                Tn = list(system.t)
+                r1 = system[qcb]
+                r2 = system[Tn[0]:Tn[-1]]
+                seen.append((Tn, r1.t, len(r2.t)))
+            st, r = run(a.integrate, callback=[spans.cap_callback(c, cap + 2, kind), lookups])
+            if st == "ok":
+                c.check("c19.lookups_during_the_run_answer_from_the_rows_recorded_so_far",
+                        c.all([c.all([c.any([c.eq(rt, tk) for tk in Tn])] + [c.le(absval(c, rt - qcb), absval(c, tk - qcb), 1) for tk in Tn] + [nsl == len(Tn)])
+                               for (Tn, rt, nsl) in seen]), info=dict(steps=len(seen)))
         else:
             st, r = run(a.integrate, callback=spans.cap_callback(c, cap + 2, kind))
     if st != "ok":
